@@ -198,7 +198,19 @@ def _m_diff(a, *args, **kw):
     return SymSeq("list", a.elem, n, [z3.Lambda([j], z3.Select(arr, j + 1) - z3.Select(arr, j))])
 
 
+def _m_polyval(p, x, *a, **k):
+    """numpy.polyval(p, x) = p[0]*x**(n-1) + ... + p[n-1]  (Horner, exactly as documented) for a short
+    python list of coefficients and a scalar x"""
+    if not isinstance(p, (list, tuple)) or len(p) > 4:
+        raise Unsupported("numpy.polyval: only a list of at most 4 coefficients is modelled")
+    acc = 0
+    for c in p:
+        acc = acc * x + c
+    return acc
+
+
 _MODELS = {
+    "polyval": _m_polyval,
     "floor": _m_floor,
     "ceil": _m_ceil,
     "abs": _m_abs,
